@@ -397,6 +397,20 @@ func (p *Path) poolPut(recv Value, v Value) {
 	if p.poolFresh {
 		return
 	}
+	// the same object handed to the pool twice without a Get in between: the next two Gets (of any trees) would
+	// receive one node — state shared between trees (C12). Reported as a fault; confirmed like a layout fault
+	// by any misbehaviour of the native run on the same inputs (check.go).
+	if iv, ok := v.(IfaceV); ok {
+		if pt, ok := iv.v.(Ptr); ok && pt.c != nil {
+			for _, e := range p.pools[c] {
+				if ei, ok := e.(IfaceV); ok {
+					if ep, ok := ei.v.(Ptr); ok && ep.c == pt.c {
+						p.faultNow("pool double Put: an object that is already in the pool is put again")
+					}
+				}
+			}
+		}
+	}
 	p.pools[c] = append(p.pools[c], v)
 }
 
